@@ -1254,7 +1254,7 @@ class Interp(object):
                     return Prim(m, "%s.%s" % (type(obj).__name__, name))
                 if name == "closed":
                     return getattr(obj, "closed", False)
-            if isinstance(obj, (GenObj, ListIter)) and name in ("__next__", "next"):
+            if isinstance(obj, (GenObj, ListIter, CallIter)) and name in ("__next__", "next"):
                 return Prim(lambda it, a, k, o=obj: o.next(), "next")
             if isinstance(obj, GenObj) and name == "close":
                 return Prim(lambda it, a, k, o=obj: o.close(), "close")
@@ -1442,6 +1442,8 @@ class Interp(object):
             return v.drain()
         if isinstance(v, ListIter):
             return v.rest()
+        if isinstance(v, CallIter):
+            return list(v.lazy())
         if isinstance(v, Abs) and not isinstance(v, (AObj, SymInt, SymBool)):
             from .extmodel import StringIOModel, DequeModel
             if isinstance(v, StringIOModel):
@@ -1531,7 +1533,7 @@ class Interp(object):
             return
         if t is ast.For:
             src = self.eval(st.iter, env, ctx)
-            items = self.gen_iter(src) if isinstance(src, GenObj) else self.iterate(src, st)
+            items = self.gen_iter(src) if isinstance(src, GenObj) else (src.lazy() if isinstance(src, CallIter) else self.iterate(src, st))
             broke = False
             for it in items:
                 self.assign(st.target, it, env, ctx)
@@ -2460,7 +2462,7 @@ class ListIter(Abs):
 
 def _b_next(it, a, k):
     v = a[0]
-    if isinstance(v, (GenObj, ListIter)):
+    if isinstance(v, (GenObj, ListIter, CallIter)):
         try:
             return v.next()
         except AbsRaise as ex:
@@ -2479,9 +2481,40 @@ def _b_next(it, a, k):
     return items[0]
 
 
+class CallIter(Abs):
+    """iter(callable, sentinel): calls the callable at every step, stops when it returns the sentinel (lazy)."""
+
+    def __init__(self, it, fn, sentinel):
+        self.it, self.fn, self.sentinel = it, fn, sentinel
+        self.done = False
+
+    def next(self):
+        if self.done:
+            raise AbsRaise("StopIteration", ())
+        v = self.it.call(self.fn, [])
+        if (not isinstance(v, Abs) or not isinstance(self.sentinel, Abs)) and type(v) is type(self.sentinel) and v == self.sentinel:
+            self.done = True
+            raise AbsRaise("StopIteration", ())
+        if v is self.sentinel:
+            self.done = True
+            raise AbsRaise("StopIteration", ())
+        return v
+
+    def lazy(self):
+        while True:
+            try:
+                yield self.next()
+            except AbsRaise as ex:
+                if ex.cls_name == "StopIteration":
+                    return
+                raise
+
+
 def _b_iter(it, a, k):
     v = a[0]
-    if isinstance(v, (GenObj, ListIter)):
+    if len(a) == 2:
+        return CallIter(it, a[0], a[1])
+    if isinstance(v, (GenObj, ListIter, CallIter)):
         return v
     return ListIter(it.iterate(v))
 
